@@ -74,7 +74,27 @@ fn set_otnh(mut dg: Vec<u8>, v: u16) -> Vec<u8> {
 }
 
 /// Returns the datagrams of a class (most classes: one).
+/// "geom:" classes come from spec/FragAssembly.tla: sequences (';') of DATAFRAG headers (',') written
+/// dataSize.fragmentSize.startingNum.fragmentsInSubmessage.payloadLength.sn; every sequence uses sequence numbers of its own
+fn geom_datagrams(code: &str, ctx: &Ctx) -> Vec<Vec<u8>> {
+    let mut out = vec![];
+    for (k, seq) in code.split(';').enumerate() {
+        for h in seq.split(',') {
+            let v: Vec<i64> = h.split('.').filter_map(|x| x.parse().ok()).collect();
+            if v.len() != 6 {
+                continue;
+            }
+            let sn = ctx.front + 10 + 4 * k as i64 + v[5];
+            out.push(wire::encode(&ctx.src_prefix, &[frag(ctx, sn, v[2] as u32, v[3] as u16, v[1] as u16, v[0] as u32, vec![7; v[4] as usize])]));
+        }
+    }
+    out
+}
+
 pub fn reader_datagrams(cls: &str, ctx: &Ctx) -> Vec<Vec<u8>> {
+    if let Some(code) = cls.strip_prefix("geom:") {
+        return geom_datagrams(code, ctx);
+    }
     let p = &ctx.src_prefix;
     let hb = |first: i64, last: i64, count: i32| wire::encode(p, &[Sub::Heartbeat { reader: ctx.reader_eid, writer: ctx.writer_eid, first, last, count, final_flag: false, liveliness: false }]);
     let gap = |start: i64, list: NumSet| wire::encode(p, &[Sub::Gap { reader: ctx.reader_eid, writer: ctx.writer_eid, start, list }]);
